@@ -191,6 +191,12 @@ func (p *Parser) deconstructStruct(rv reflect.Value, numBuffers *int) (buffers [
 			continue
 		}
 
+		// What an interface holds is not settable by itself: a Binary (or a struct) held
+		// directly by an interface-typed field is replaced through the field.
+		if k == reflect.Interface && rv.Field(i).CanSet() {
+			fv = rv.Field(i)
+		}
+
 		b, err := p.deconstructValue(fv, numBuffers)
 		if err != nil {
 			return nil, err
